@@ -411,6 +411,13 @@ func (env *Env) quant(n *EQuant) Val {
 	body := c.eval(n.Body)
 	g := and(guards...)
 	var t string
+	if n.Forall && len(n.Triggers) > 0 {
+		var ps []string
+		for _, tr := range n.Triggers {
+			ps = append(ps, c.eval(tr).T)
+		}
+		return Val{T: fmt.Sprintf("(forall (%s) (! %s :pattern (%s)))", strings.Join(binds, " "), implies(g, body.T), strings.Join(ps, " ")), Ty: tBool}
+	}
 	if n.Forall {
 		t = fmt.Sprintf("(forall (%s) %s)", strings.Join(binds, " "), implies(g, body.T))
 	} else {
@@ -560,6 +567,14 @@ func (env *Env) callSpec(n *ECall) Val {
 			}
 		}
 		fail("no field %s", fn.V)
+	case "errmsg":
+		return Val{T: env.e.W.UF("errmsg", []string{"Int"}, "String", arg(0).T), Ty: tString}
+	case "isNotExist":
+		return Val{T: env.e.W.UF("pure.os.IsNotExist", []string{"Int"}, "Bool", arg(0).T), Ty: tBool}
+	case "dirOf":
+		return Val{T: env.e.W.UF("path.dir", []string{"String"}, "String", arg(0).T), Ty: tString}
+	case "baseOf":
+		return Val{T: env.e.W.UF("path.base", []string{"String"}, "String", arg(0).T), Ty: tString}
 	case "store":
 		a, i, v := arg(0), arg(1), arg(2)
 		r := a
